@@ -3311,6 +3311,14 @@ where
       } => {
         if let Some(ga) = generic_args {
           if let Some(rule) = rule_from_ident(self.state.cddl, ident) {
+            // Applying arguments validates the rule on a fresh validator, which
+            // would forget the recursion guard: the same rule applied again to
+            // the same value makes no progress (`a = a<int>`)
+            let visited_key = format!("generic\u{0}{}\u{0}{:?}", ident.ident, self.cbor);
+            if self.state.visited_rules.contains(&visited_key) {
+              return Ok(());
+            }
+
             if let Some(gr) = self
               .state
               .generic_rules
@@ -3344,6 +3352,8 @@ where
             let mut cv = CBORValidator::new(self.state.cddl, self.cbor.clone());
 
             cv.state.generic_rules = self.state.generic_rules.clone();
+            cv.state.visited_rules = self.state.visited_rules.clone();
+            cv.state.visited_rules.insert(visited_key);
             cv.state.eval_generic_rule = Some(ident.ident);
             cv.state.is_multi_type_choice = self.state.is_multi_type_choice;
             cv.visit_rule(rule)?;
